@@ -266,7 +266,16 @@ META["C13"] = dict(
          "freelist Put after the release from store.put.index_done / store.remove.index_done, the hook points of Flush and ToGC, "
          "primary.gc.fl.applied / .removed - starting from the pool:file:.gc counts the harness reports; every event must be ENABLED in the "
          "model (lock free, pool empty or not, file present) and the three counts after the schedule must agree "
-         "(C13_handover_replay_exactly_once speaks about exactly this run).",
+         "(C13_handover_replay_exactly_once speaks about exactly this run). "
+         "THE FLUSH BARRIER (Sth/Model/BarrierConc.lean, Sth/Props/C13B.lean): Store.Put/Remove (primary Put section, freelist Put section) "
+         "|| primary Flush (swap section + write section under flushLock) || freelist Flush || the collector's pass (ToGC, ITS OWN primary "
+         "Flush, apply, remove): for EVERY schedule no freelist entry is applied to a record that is not in the primary file yet "
+         "(C13_barrier_nothing_missed, C13_barrier_apply_finds_all), and applied ++ pending = freed as lists (C13_barrier_applied_exactly); "
+         "negative witnesses C13_barrier_needs_lock_wait (a Flush that returns without queueing when nothing is pooled: the change two "
+         "independent reviewers seeded in round 6), C13_barrier_needs_order (flush before hand-over: defect D4), "
+         "C13_barrier_two_collectors_miss. Its premises are obligations over the regenerated facts (C13_flush_is_barrier: every return "
+         "of the three Flush functions holds the function's flushLock; gc() calls ToGC, then the primary's Flush, then processFreeList), "
+         "and the flush-window schedules of the c13 profile put a collector cycle inside a Flush on the real code.",
     note=SEQ_NOTE,
 )
 
